@@ -881,7 +881,7 @@ func genHistoryFrag(rc *RunCtx, sc *C1, n int, slow, frag bool) []*C1 {
 		}
 		h.Chunks = []Chunk{{N: len(h.Reply)}}
 		if slow {
-			h.Chunks[0].Gap = time.Duration(2+t.Choose(9)) * time.Millisecond
+			h.Chunks[0].Gap = time.Duration(2+t.Choose(60)) * time.Millisecond // a device behind a gateway
 		}
 		if frag {
 			h.Chunks = genChunks(t, len(h.Reply))
